@@ -352,14 +352,23 @@ def run_group(ta, tb, mult, kind, fam, dts=("float64", "float64")):
     return dict(snap=snap, steps=steps)
 
 
+def factors(t):
+    """number of leaf factors of a tree, powers counted with their multiplicity"""
+    if t[0] in ("L", "C", "E", "R"):
+        return 1
+    if t[0] == "^":
+        return max(1, t[2]) * factors(t[1])
+    return factors(t[1]) + factors(t[2])
+
+
 def array_cases(ctx, fam, ta, tb, rng):
     """the correspondence cases (one per step and element) of one operand pair evaluated with Arrays"""
-    shallow = depth(ta) <= 1 and depth(tb) <= 1
+    shallow = factors(ta) <= 2 and factors(tb) <= 2
     kind = rng.choice(ARR_KINDS + (("ndarray", "ndarray") if shallow else ()))
     mult = [rng.choice(ARR_MULT) for _ in range(rng.choice((2, 3)))]
     dts = ["float64", "float64"]
     if kind == "ndarray" and shallow and rng.random() < 0.7:
-        dts = list(rng.choice(ARR_DTYPES))  # operands of at most two leaves: integer products stay exact
+        dts = list(rng.choice(ARR_DTYPES))  # operands of at most two leaf factors: integer products stay exact
     g = run_group(ta, tb, mult, kind, fam, dts)
     if g is None:
         return []
